@@ -9,7 +9,8 @@ K  translator harness/translators/adf_lex.py re-reads every regular expression, 
    file *text* with the model's writers and parses it back (text views and canonical views must agree); the same text
    is parsed by the real parse_adf*, installed with install_adf* into a temporary repository and read back with get_*.
 S  direct oracle, no model: what the real parser / repository returns must equal the generated tables after the
-   documented conversions; wrong element header / absent block must raise.
+   documented conversions; wrong element header / absent block must raise; install_files(configuration dict with every key)
+   must put each file into its own repository family and leave the others empty.
 """
 import json
 import math
@@ -1010,10 +1011,10 @@ def run_bundle(ctx, w, b, texts, model_dispatch):
             targets = model_dispatch.get(b['spell'](key), [])
             if len(targets) != 1 or targets[0] not in INSTALLER_FAMILY:
                 disagree.append('model dispatches %s to %r' % (key, targets))
-            elif (_readback11(R, c, INSTALLER_FAMILY[targets[0]], w.repo) is None) != (d is None) and INSTALLER_FAMILY[targets[0]] == cls:
-                disagree.append('model family for %s disagrees with the repository' % key)
-            elif INSTALLER_FAMILY[targets[0]] != cls and _readback11(R, c, INSTALLER_FAMILY[targets[0]], w.repo) is not None:
-                disagree.append('model sends %s to %s but the data is not there' % (key, targets[0]))
+            else:
+                dm = _readback11(R, c, INSTALLER_FAMILY[targets[0]], w.repo)
+                if dm:
+                    disagree.append('model: key %s runs %s, but that family does not hold the file: %s' % (key, targets[0], dm))
         elif c['fmt'] == '12':
             for tr, stc, _ in c['blocks']:
                 st3, back = call(R.get_beam_cx_rates, c['donor'], c['receiver'], c['charge'], tr, w.repo)
@@ -1114,9 +1115,13 @@ def _streams(ctx, w):
     cases += edge
     for i in range(ctx.n(120, 1800)):
         cases.append(gen_15(ctx, rng, absent=(i % 10 == 9)))
+    bundles = [gen_bundle(ctx, rng, i) for i in range(ctx.n(8, 120))]
+    bcases = [c for b in bundles for _, c in b['cases']]
     w.fresh_repo()
-    outs = ctx.driver([c['line'] for c in cases])
+    outs_all = ctx.driver([c['line'] for c in cases + bcases])
+    outs, bouts = outs_all[:len(cases)], outs_all[len(cases):]
     ctx.traces = 0
+    _bundles(ctx, w, bundles, bouts)
     seen_fmt = set()
     for c, o in zip(cases, outs):
         parts = o.split('#')
@@ -1149,6 +1154,35 @@ def _streams(ctx, w):
                 ok, sig, why = res[k]
                 if not ok:
                     ctx.fail(sig, why, dict(case=c['desc'], file=text, line=c['line']))
+
+
+def _bundles(ctx, w, bundles, bouts):
+    """install_files stream: K = the model's dispatch + installer tables name the family that holds each file;
+    S = every family is read back through its own get_*, untouched families are empty"""
+    keys = sorted({b['spell'](k) for b in bundles for k, _ in b['cases']})
+    ans = ctx.driver(['dispatch ' + ' '.join(keys)])[0] if keys else ''
+    model_dispatch = {}
+    for part in ans.split(' '):
+        if '=' in part:
+            k, _, v = part.partition('=')
+            model_dispatch[k] = [x for x in v.split(',') if x]
+    pos = 0
+    for b in bundles:
+        n = len(b['cases'])
+        texts = [o.split('#')[0].replace('|', '\n') + '\n' for o in bouts[pos:pos + n]]
+        pos += n
+        fails, disagree = run_bundle(ctx, w, b, texts, model_dispatch)
+        ctx.count('install_files:bundle')
+        ctx.count('install_files:keys', n)
+        ctx.case(key=('install_files', b['elA'].symbol, b['elB'].symbol, b['clsB'], tuple(c['sizes'] for _, c in b['cases'][:3])),
+                 sample=dict(case=b['desc']) if b['id'] == 0 else None)
+        ctx.traces += 1
+        for d in disagree:
+            ctx.disagreements += 1
+            ctx.broke('correspondence', 'C08 stream install_files', dict(case=b['desc'], detail=d))
+        for sig, why in fails:
+            ctx.fail(sig, why, dict(case=b['desc'], files={c['rel']: t for (_, c), t in zip(b['cases'], texts)}))
+    w.fresh_repo()
 
 
 def replay(ctx, path):
